@@ -610,6 +610,36 @@ def _sum_terms(e):
     return [e]
 
 
+def collect_fills(A: Analysis, fi, g=None):
+    """Lists that are filled from an iterable: (list name, iterable, element, guard DNF) for the loop form
+    `for x in IT: … L.append(E)` (guard = path condition inside one iteration) and for `L = [E for x in IT if C]`."""
+    g = g or A.cfg(fi, "plain")
+    out = []
+    for node in walk_local(fi.node):
+        if isinstance(node, (ast.Assign, ast.AnnAssign)) and isinstance(node.value, ast.ListComp) and len(node.value.generators) == 1:
+            tg = node.targets[0] if isinstance(node, ast.Assign) else node.target
+            gen = node.value.generators[0]
+            if isinstance(tg, ast.Name):
+                cond = ast.BoolOp(op=ast.And(), values=list(gen.ifs)) if len(gen.ifs) > 1 else (gen.ifs[0] if gen.ifs else ast.Constant(value=True))
+                out.append((tg.id, gen.iter, node.value.elt, A.dnf(cond, True, fi, inline=False)))
+        elif isinstance(node, ast.For):
+            hdr = [n for n in g.nodes if n.kind == "for" and n.ast is node]
+            if not hdr:
+                continue
+            be = [m for (m, l) in hdr[0].succ if l == "T"]
+            inside = {id(x) for x in ast.walk(node)}
+            for n in g.nodes:
+                if n.kind == "stmt" and isinstance(n.ast, ast.Expr) and isinstance(n.ast.value, ast.Call) and isinstance(n.ast.value.func, ast.Attribute) \
+                        and n.ast.value.func.attr == "append" and isinstance(n.ast.value.func.value, ast.Name) and id(n.ast) in inside and n.ast.value.args:
+                    # innermost loop only
+                    anc = getattr(n.ast, "_parent", None)
+                    while anc is not None and not isinstance(anc, ast.For):
+                        anc = getattr(anc, "_parent", None)
+                    if anc is node and be:
+                        out.append((n.ast.value.func.value.id, node.iter, n.ast.value.args[0], A.path_guards(g, be[0], n, fi)))
+    return out
+
+
 def rule_ex9(A: Analysis, rep, F: ExecFacts):
     fi = F.report_fi
     g = A.cfg(fi, "plain")
@@ -633,14 +663,11 @@ def rule_ex9(A: Analysis, rep, F: ExecFacts):
               "the first failed op's error is raised", "no stored error is raised on failure", deep=False)
     # failed / skipped lists are filled by state
     fills = {}
-    for node in walk_local(fi.node):
-        if isinstance(node, ast.If) and isinstance(node.test, ast.Compare):
-            tx = norm(node.test)
-            for st in node.body:
-                if isinstance(st, ast.Expr) and isinstance(st.value, ast.Call) and isinstance(st.value.func, ast.Attribute) and st.value.func.attr == "append":
-                    fills[norm(st.value.func.value)] = tx
-    sk = [k for k, t in fills.items() if "OperationState.SKIPPED" in t and "==" in t]
-    fl = [k for k, t in fills.items() if "OperationState.FAILED" in t and "==" in t]
+    for (lst, it_, elt_, guard) in collect_fills(A, fi, g):
+        if norm(it_) == "self._completed_ops":
+            fills[lst] = " | ".join(fmt_conj(c) for c in guard)
+    sk = [k for k, t in fills.items() if "eq(OperationState.SKIPPED," in t and "!eq(OperationState.SKIPPED," not in t and " | " not in t]
+    fl = [k for k, t in fills.items() if "eq(OperationState.FAILED," in t and "!eq(OperationState.FAILED," not in t and " | " not in t]
     rep.check(len(sk) == 1 and len(fl) == 1 and sk != fl, "EX9", "lists by state", fi.node,
               "skipped list ⇐ state == SKIPPED, failed list ⇐ state == FAILED",
               "failed/skipped lists are not filled from the matching states: %s" % fills)
